@@ -325,7 +325,7 @@ register("C06", lean_modules=["FsProofs.Properties.ClosedC06", "FsProofs.Propert
          model_certs={"cert_c06": ("1", "tables_certificate", "the Lean checker checkC06 (soundness: Fs.ImplCheck.checkC06_sound) rejects the donors / bottom-up order / breadth-first levels REPORTED BY THE IMPLEMENTATION")},
          nontrivial=has_pits_or_multi, tags=tags_flow,
          rule="all operator families incl. spanning-tree re-routing, masks, repeated updates on one object; snapshots' tables checked too", trusted_base=FLOW_TB)
-register("C19", lean_modules=["FsProofs.Properties.ShapesC19", "FsProofs.Properties.ClosedMore", 'FsModel.Basins', 'FsProofs.Properties.C19', 'FsProofs.Properties.ImplCheck'], theorems=["Fs.Shapes.source_shape_C19", "Fs.Closed.raster_C19_basins", "Fs.Closed.mesh_C19_basins", "Fs.Closed.profile_C19_basins", 'Fs.C19.basins_spec', 'Fs.ImplCheck.checkBasins_sound', 'Fs.ImplCheck.checkBasins_drain', 'Fs.C19.run_blocks', 'Fs.Basins.run_block', 'Fs.Basins.block_labels_agree'], gen=lambda r, t: gen_any_ops(r, t, basins=True), oracles=[oracle.c19], sections={"basins", "outlets", "pits"},
+register("C19", lean_modules=["FsProofs.Properties.ClosedC19Resolve", "FsProofs.Properties.ShapesC19", "FsProofs.Properties.ClosedMore", 'FsModel.Basins', 'FsProofs.Properties.C19', 'FsProofs.Properties.ImplCheck'], theorems=["Fs.Closed.grid_C19_resolve", "Fs.Closed.grid_resolve_mask_closed", "Fs.Closed.raster_C19_resolve", "Fs.Closed.mesh_C19_resolve", "Fs.Closed.profile_C19_resolve", "Fs.Shapes.source_shape_C19", "Fs.Closed.raster_C19_basins", "Fs.Closed.mesh_C19_basins", "Fs.Closed.profile_C19_basins", 'Fs.C19.basins_spec', 'Fs.ImplCheck.checkBasins_sound', 'Fs.ImplCheck.checkBasins_drain', 'Fs.C19.run_blocks', 'Fs.Basins.run_block', 'Fs.Basins.block_labels_agree'], gen=lambda r, t: gen_any_ops(r, t, basins=True), oracles=[oracle.c19], sections={"basins", "outlets", "pits"},
          model_certs={"cert_c19": ("1", "basins_certificate", "the Lean checker checkBasins (soundness: Fs.ImplCheck.checkBasins_sound) rejects the labels / outlets / pits REPORTED BY THE IMPLEMENTATION")},
          nontrivial=has_pits_or_multi, tags=tags_flow,
          rule="basins/outlets/pits after every single-direction sequence, masks, carve/basic re-routing, repeated calls", trusted_base=FLOW_TB)
@@ -651,7 +651,7 @@ _lvl("C09", "proof",
 _lvl("C17", "proof",
      "Theorems on the executed grid model (constants regenerated from the source): prio_order (fixed value > fixed gradient > looped > core, decide over the regenerated precedences), paint_spec (for every raster with >= 2 nodes per axis: core strictly inside, the border's status on each non-corner border node, at each corner the one of the two meeting statuses with the larger precedence), rasterStatus_ok_iff / _error_iff / _error_kind / rasterStatus_ok / rasterStatus_ok_distinct (construction succeeds iff looped borders are symmetric and no override is out of range, looped, or on a looped node; which error kind the first offending entry yields; otherwise the array is the painted array with the overrides applied and looped appears exactly on the looped borders), the same for the profile grid (profileStatus_*), sortKeys_perm / sorted (std::map order), iterFwd_eq / iterRev_eq (iteration filtered by any predicate yields exactly (range size).filter p, resp. its reverse, for every size and predicate; built on skipFwd_stop). Triangular mesh (C17Mesh.lean, on the executed Fs.MeshGrid.statusMap / statusArr): meshStatusMap_ok_iff (accepted iff no entry is looped or out of range), meshStatusMap_error_kind (the first offending entry decides; looped is tested before the range), meshStatusMap_ok / _ok_distinct (empty map: boundary nodes fixed value, others core; otherwise every node core except the given entries, last entry wins; a mesh never has a looped node), meshStatusArr_spec (array accepted iff its length is the number of nodes, then copied). Default base levels = fixed-value nodes is a definition of the driver. Compared exhaustively over all 4^4 / 4^2 border mixes on small shapes, plus malformed override maps with error kinds, iteration in both directions for every filter.",
      "Lean 4 proofs on the executed status/iteration model (omega, decide over regenerated constants, list induction) + exhaustive border-mix correspondence")
-_lvl("C19", "proof",
+_lvl("C19", "proof AFTER THE SINK RESOLVER (ClosedC19Resolve.lean): grid_resolve_mask_closed (fold invariant over routeBasic / carveLoop: an unmasked node's rewritten receiver is unmasked) and grid_C19_resolve - all clauses of basins_spec for the graph the spanning-tree resolver returns (Kruskal, carve and basic), plus the pay-off of the resolver: (8) no remaining pit is connected through unmasked neighbours to an unmasked base level, (9) if every unmasked node is so connected there is no pit at all; raster_/mesh_/profile_ instances, computed examples (pits [8] before, [] after, both methods; a masked-off region keeps its pit).",
      "END-TO-END theorem on the executed Fs.Flow.basins over any single-direction graph assembled from a receiver forest (C06.SingleGraph: router output or spanning-tree resolver output) whose unmasked nodes never drain into masked ones (basins_spec): masked nodes get the reserved label; every unmasked node has the label of its receiver; the outlets are exactly the unmasked self-receivers, without duplicates, numbered consecutively from zero in bottom-up order; every unmasked node's label is the index of the outlet it drains to (two unmasked nodes share a label iff they drain to the same outlet; number of distinct labels = number of unmasked outlets); pits = outlets that are not base levels. Built on run_block / block_labels_agree and the block structure of the bottom-up order (dfs_blocks). Certificate: the model driver runs checkBasins on the labels / outlets / pits REPORTED BY THE C++ against the tables it reported at the last update (soundness checkBasins_sound, checkBasins_outlets, checkBasins_drain).",
      "Lean 4 fold proofs of the labelling sweep composed with the block structure of the bottom-up order + bit-exact correspondence + partition oracle")
 
